@@ -72,7 +72,7 @@ CHECKS = {
     "C05": {"drivers": ["hist", "hist_long", "size"], "models": ["hist_k256", "hist_ed"]},
     "C06": {"drivers": ["hist", "size", "seq"], "models": ["hist_k256"]},
     "C07": {"drivers": ["seq", "hist"], "models": ["hist_k256"]},
-    "C08": {"drivers": ["hist", "hist_long", "seq"], "models": ["hist_k256"]},
+    "C08": {"drivers": ["hist", "hist_long", "seq", "size"], "models": ["hist_k256"]},
     "C09": {"drivers": ["size", "hist", "struct"], "models": ["hist_k256"]},
     "C10": {"drivers": ["nid", "valid", "hist", "cross"], "models": ["hist_ed"]},
     "C11": {"drivers": ["cross", "struct", "auth_light", "valid"], "models": ["gen_secp", "gen_ed"]},
